@@ -128,6 +128,15 @@ def run_job(job):
                 continue
             cp = caps[ci]
             out["ncal"].append(len(cp["scores"]))
+            # held-out: the rows the lower / upper regressions are fitted on and the calibration rows partition the reporting units
+            fits = [r for r in cap.records if r["op"] == "fit"]
+            fi = k * (1 + 2 * A) + 1 + 2 * ai
+            if fi + 1 < len(fits):
+                for which, rec in (("lower", fits[fi]), ("upper", fits[fi + 1])):
+                    if rec["n"] + len(cp["scores"]) != len(h["rep_ids"]):
+                        out["s"].append({"what": f"{e}@{a}: the {which} regression is fitted on {rec['n']} rows and {len(cp['scores'])} units calibrate, but there are only "
+                                                 f"{len(h['rep_ids'])} reporting units: calibration units are not held out", "kind": "not-held-out"})
+                        break
             base_idx = k * (1 + 4 * A) + 1 + 4 * ai
             if base_idx + 3 >= len(preds):
                 out["s"].append({"what": "solver call sequence changed", "kind": "capture-shape"})
@@ -219,6 +228,10 @@ def run(chk):
     for i in range(n):
         kw = {"model_parameters": {"robust": True}} if i % 2 else {}
         rjobs.append((rng.randint(0, 2**31), kw))
+    # few reporting units and a wide design (more columns than training rows)
+    for i in range(3 if chk.tier == "quick" else 30):
+        rjobs.append((rng.randint(0, 2**31), {"n_units": 16 + 2 * i, "n_states": 1, "frac_reporting": 0.6, "features": ["feat_a", "feat_b"],
+                                             "fixed_effects": {"county_classification": "all"}, "alphas": [0.7], "estimands": ["turnout"], "special": False, "blocklist": False}))
     routs = core.pmap(run_job, rjobs)
     exprs, idx = [], []
     n_ok = 0
